@@ -108,7 +108,7 @@ CHECKS.update({
                  "ticks after 5 min, submitted ones two ticks after 1 h; the retry budget strictly decreases on every due tick and a spent "
                  "budget deletes. The real handleCleanup is replayed with time simulated by shifting recorded instants across every "
                  "threshold, and the schedule Spec is evaluated on the implementation's own before/after summaries."),
-        "note": ("Trusted: Lean kernel; integer-nanosecond time (delta.Hours()/Minutes() float comparisons are exact at the thresholds);  The 10 050-entry flood of the scale family is not replayed by the model (one `flood` line; afterwards Spec clauses only, on the implementation's own states); that an entry's fate does not depend on the other entries is `tick_effect` in the model. "
+        "note": ("Trusted: Lean kernel; integer-nanosecond time (delta.Hours()/Minutes() float comparisons are exact at the thresholds);  The 10 050-observation flood of the scale family is one `flood` line which the driver expands and replays through the model; intermediate states are not compared, the state after the last observation is. "
                  "liveness is relative to ticks continuing; harness time shifting; Go map iteration order abstracted (outputs compared as "
                  "multisets, request-queue slots checked as subset + count)."),
     },
